@@ -1,8 +1,10 @@
 import RV.C02.LemConc
 /-
-  C02 round g — composition with C01: the Dataset / ConjunctiveGraph layer over the CONCRETE
-  `Memory` model (`RV.C02.Conc`, store = `RV.C01.Mem`: three indexes, default-context
-  compression, `__contextTriples`, `__all_contexts`, `err` flag).
+  C02 rounds g/h — composition with C01: the Dataset / ConjunctiveGraph layer over the CONCRETE
+  `Memory` model (`RV.C02.Conc`, store = `RV.C01.NMem` since round h: three NESTED-dictionary indexes
+  (insertion ladders, leaf-only deletion, level-by-level walks), default-context compression,
+  `__contextTriples`, `__all_contexts`, `err` flag).  Every theorem below is therefore ONE statement about
+  the chain  Dataset layer → three nested indexes → mapping graph name → triple set.
 
   Before this round the refinement "Memory behaves as a set of (triple, graph) pairs plus a set of
   registered graphs" was an assumption of C02 tied by correspondence only.  Here it is discharged:
@@ -35,12 +37,12 @@ def obsChoices (cfg : Cfg) (mc : CMem) (ch : Choice) (e : Option Key) : List Tri
   ch.pats.flatMap (fun p => (mc.triplesC p (resolveChoiceCtx cfg e)).map (·.1))
 
 /-- configuration and concrete store after a history (with `default_union` switches) from the empty store -/
-def after (cfg : Cfg) (sops : List SOp) : Cfg × CMem := runS (cfg, C01.Mem.init) sops
+def after (cfg : Cfg) (sops : List SOp) : Cfg × CMem := runS (cfg, C01.NMem.init) sops
 
 /-- all observables the property names, on one concrete state, against the mapping `σ`;
     plus: nothing raised, `store.contexts()`, `len` -/
 structure Agree (cfg : Cfg) (mc : CMem) (σ : Spec) : Prop where
-  noRaise : mc.err = false ∧ ∀ pat, C01.triplesRaises mc pat = false
+  noRaise : mc.cx.err = false ∧ ∀ pat, mc.triplesRaises pat = false
   quads : ∀ q, q ∈ obsQuads mc TPat.all none ↔ σ.has q.2 q.1
   quadsPat : ∀ pat e q, q ∈ obsQuads mc pat e ↔
       σ.has q.2 q.1 ∧ pat.matches q.1 = true ∧ (∀ k, e = some k → σ.has k q.1)
@@ -63,6 +65,10 @@ structure Agree (cfg : Cfg) (mc : CMem) (σ : Spec) : Prop where
   viewChoices : ∀ k ch t, t ∈ vChoices mc k ch ↔ (∃ p ∈ ch.pats, p.matches t = true) ∧ σ.has k t
   /-- `len(ds)` = number of distinct triples in the union of the graphs, however it is enumerated -/
   len : ∀ (l : List Triple), l.Nodup → (∀ t, t ∈ l ↔ ∃ k, σ.has k t) → cgLen mc = l.length
+  /-- the three NESTED indexes under the Dataset: every dictionary level has unique keys, and `spo[s][p][o]`,
+      `pos[p][o][s]`, `osp[o][s][p]` exist together, exactly for the triples some graph of the mapping holds -/
+  index : C01.NWF mc ∧ ∀ (s p o : Nat), (C01.idxHas mc.ispo s p o = true ↔ ∃ k, σ.has k (s, p, o)) ∧
+    C01.idxHas mc.ipos p o s = C01.idxHas mc.ispo s p o ∧ C01.idxHas mc.iosp o s p = C01.idxHas mc.ispo s p o
 
 end Conc
 
@@ -74,7 +80,7 @@ end Conc
     `qs`, the registered graphs exactly `allc`") holds initially, is kept by every step from ANY related
     pair of states, and therefore after every history with `default_union` switches. -/
 def Statement_conc_refines_abstract : Prop :=
-  Conc.Rel C01.Mem.init Mem.empty ∧
+  Conc.Rel C01.NMem.init Mem.empty ∧
   (∀ (cfg : Cfg) (mc : Conc.CMem) (ma : Mem) (op : Op), Conc.Rel mc ma →
       Conc.Rel (Conc.step cfg mc op) (step cfg ma op)) ∧
   (∀ (cfg : Cfg) (sops : List SOp),
@@ -215,7 +221,7 @@ def Statement_conc_graph_lifecycle : Prop :=
 theorem conc_reach (cfg : Cfg) (sops : List SOp) :
     (Conc.after cfg sops).1 = (runS (cfg, Mem.empty) sops).1 ∧
       Conc.Rel (Conc.after cfg sops).2 (runS (cfg, Mem.empty) sops).2 :=
-  Conc.rel_runS sops (sc := (cfg, C01.Mem.init)) (sa := (cfg, Mem.empty)) rfl Conc.rel_init
+  Conc.rel_runS sops (sc := (cfg, C01.NMem.init)) (sa := (cfg, Mem.empty)) rfl Conc.rel_init
 
 theorem conc_refines_abstract : Statement_conc_refines_abstract :=
   ⟨Conc.rel_init, fun cfg _ _ op h => Conc.rel_step cfg h op, conc_reach⟩
@@ -267,7 +273,7 @@ theorem mem_cobsChoices {mc : Conc.CMem} {ma : Mem} (h : Conc.Rel mc ma) (cfg : 
 theorem conc_agree_of {cfg : Cfg} {mc : Conc.CMem} {ma : Mem} {σ : Spec} (h : Conc.Rel mc ma)
     (hS : Sim cfg ma σ) : Conc.Agree cfg mc σ := by
   have hA := agree_of_sim hS
-  have hobs := C01.storeObsAgree_of h.toSim
+  have hobs := C01.nstoreObsAgree_of h.toSim
   refine
     { noRaise := hobs.no_raise
       quads := fun q => (Conc.mem_cquads h _ _ q).trans (hA.quads q)
@@ -288,7 +294,8 @@ theorem conc_agree_of {cfg : Cfg} {mc : Conc.CMem} {ma : Mem} {σ : Spec} (h : C
       contains := ?_
       choices := fun ch e t => (mem_cobsChoices h cfg ch e t).trans (hA.choices ch e t)
       viewChoices := fun k ch t => (Conc.vChoices_out h k ch t).trans (hA.viewChoices k ch t)
-      len := ?_ }
+      len := ?_
+      index := ?_ }
   · intro k
     rw [Conc.mem_storeContexts h, hS.known]
   · intro k
@@ -308,6 +315,10 @@ theorem conc_agree_of {cfg : Cfg} {mc : Conc.CMem} {ma : Mem} {σ : Spec} (h : C
     intro t
     rw [hl, Conc.sees_iff]
     simp only [ctxOk_none, and_true, hS.has]
+  · refine ⟨h.wf, fun s p o => ?_⟩
+    have := hobs.index s p o
+    simp only [Conc.QKof, hS.has] at this
+    exact this
 
 theorem conc_refine_history : Statement_conc_refine_history := by
   intro cfg sops
@@ -503,8 +514,8 @@ theorem conc_graph_lifecycle : Statement_conc_graph_lifecycle := by
     unknown graph 94, a foreign Graph argument, removals, remove_graph, three `default_union` switches)
     run over the concrete store -/
 
-example : (Conc.after exDs exSOps).1.du = true ∧ (Conc.after exDs exSOps).2.err = false ∧
-    (Conc.after exDs exSOps).2.spo = [(1, 10, 20), (2, 10, 21)] ∧
+example : (Conc.after exDs exSOps).1.du = true ∧ (Conc.after exDs exSOps).2.cx.err = false ∧
+    (Conc.after exDs exSOps).2.ispo = [(1, [(10, [20])]), (2, [(10, [21])]), (3, [(11, [])]), (7, [(7, [])])] ∧
     (Conc.obsQuads (Conc.after exDs exSOps).2 TPat.all none) = [((1, 10, 20), 99), ((1, 10, 20), 91), ((2, 10, 21), 91)] ∧
     Conc.storeContexts (Conc.after exDs exSOps).2 = [95, 99, 90, 91, 93] ∧
     Conc.cgLen (Conc.after exDs exSOps).2 = 2 ∧
@@ -513,7 +524,7 @@ example : (Conc.after exDs exSOps).1.du = true ∧ (Conc.after exDs exSOps).2.er
     (Conc.cgContains (Conc.after exDs exSOps).1 (Conc.after exDs exSOps).2 (.quad (some 1, some 10, some 20) (.ident 91))).2 = true := by
   decide
 -- the context bookkeeping is really exercised: a default context set and two explicit (uncompressed) entries
-example : (Conc.after exDs exSOps).2.dflt = some [some 99, none] ∧ (Conc.after exDs exSOps).2.tctx.length = 2 := by decide
+example : (Conc.after exDs exSOps).2.cx.dflt = some [some 99, none] ∧ (Conc.after exDs exSOps).2.cx.tctx.length = 2 := by decide
 -- the hypothesis of `conc_shared_triple_survives` is met: (1,10,20) is held by graphs 99 and 91
 example : (1, 10, 20) ∈ Conc.vTriples (Conc.after exDs exSOps).2 91 TPat.all ∧
     (1, 10, 20) ∈ Conc.vTriples (Conc.after exDs exSOps).2 99 TPat.all := by decide
